@@ -15,6 +15,13 @@
 //
 // Weights: in "dyadic" mode every weight is a multiple of 1/8 below 2^31 and every sum stays below 2^53/8, so W is
 // compared with ==. In "arbitrary" mode weights are generated doubles and W is compared with relative 1e-9.
+//
+// Known findings on the pinned tree (five keys below): the model carries one flag per finding that records whether the
+// history has the SHAPE that triggers it (e.g. "an earlier merge's lighter input held the larger maximum"); a failing
+// check is reported under a key only when the corresponding flag is set, otherwise unkeyed. Two of the findings can end in
+// an out-of-bounds access inside a later merge; when (and only when) their key is listed as open, a merge with that exact
+// shape is excluded before it is executed (KnownSkip), so that the worker survives. The shape is classified with public
+// getters and the documented image layout only; no flag influences what a check asserts.
 #include "vf/core.hpp"
 #include <ebpps_sketch.hpp>
 #include "vf/coin.hpp"
